@@ -6,7 +6,7 @@ import itertools
 import os
 import threading
 
-from core import Mismatch, Prop, canon
+from core import CaseTimeout, Mismatch, Prop, canon
 from props.c08 import decode_by_name, listing
 from util import build_layout, exc
 
@@ -189,6 +189,8 @@ class C09(Prop):
             except RecursionError:
                 # catch_exceptions=True: the task is retried for ever; the interpreter ends it
                 result = 'failed' if case.get('catch') else 'other:RecursionError'
+            except CaseTimeout:
+                raise
             except BaseException as e:  # pylint: disable=broad-except
                 result = 'other:' + type(e).__name__
         finally:
@@ -202,6 +204,8 @@ class C09(Prop):
                 result2 = 'ok'
             except self.Exists:
                 result2 = 'FileAlreadyExists'
+            except CaseTimeout:
+                raise
             except BaseException as e:  # pylint: disable=broad-except
                 result2 = 'other:' + type(e).__name__
             after2 = listing(root)
@@ -247,6 +251,8 @@ class C09(Prop):
         # the context must remain usable
         try:
             follow = sc.parallelize([1, 2, 3], 2).map(lambda x: x + 1).sum()
+        except CaseTimeout:
+            raise
         except BaseException as e:  # pylint: disable=broad-except
             follow = exc(e)
         if follow != 9:
@@ -255,6 +261,8 @@ class C09(Prop):
             flat = [x for p in parts for x in p]
             try:
                 back = sc.textFile(path).collect()
+            except CaseTimeout:
+                raise
             except BaseException as e:  # pylint: disable=broad-except
                 back = exc(e)
             if r['readDir'] != flat:
